@@ -31,8 +31,9 @@ def ENCODED():
     import ethosu.vela.lut as lut
     import ethosu.vela.high_level_command_stream_generator as gen
     import ethosu.vela.live_range as lr
+    import ethosu.vela.weight_compressor as wc
 
-    return [lut.optimize_high_level_cmd_stream, lut.LUTState.put, lut.LUTState.find_best_address, lut.LUTState.get_equivalent, lut.get_lut_index,
+    return [wc.encode_weight_and_scale_tensor, lut.optimize_high_level_cmd_stream, lut.LUTState.put, lut.LUTState.find_best_address, lut.LUTState.get_equivalent, lut.get_lut_index,
             gen.generate_high_level_commands_for_sched_op, lr.extract_live_ranges_from_schedule]
 
 
@@ -300,7 +301,15 @@ def rolling(V, **params):
     return c10.cascade(V, **params)
 
 
-FUNCS = {"lut": lut, "wbuf": wbuf, "rolling": rolling, "lr_rolling": lr_rolling, "build_twice": build_twice, "memcpy": memcpy}
+def wbuf_sizes(V, **params):
+    """the SRAM weight buffers are allocated from NpuWeightTensor.double_buffer_sizes: each must hold every (all cores') slice DMA-ed into it -
+    the encoder bookkeeping lemma of harness/c08.py, registered here because an under-sized buffer lets the weight DMA overwrite a live tensor"""
+    from harness import c08
+
+    return c08.encode(V, **params)
+
+
+FUNCS = {"lut": lut, "wbuf": wbuf, "rolling": rolling, "lr_rolling": lr_rolling, "build_twice": build_twice, "memcpy": memcpy, "wbuf_sizes": wbuf_sizes}
 
 
 def instances(tier, seed):
@@ -321,6 +330,11 @@ def instances(tier, seed):
             out.append(dict(key="build_twice/cin%d/spill%d" % (cin, sp), fn="build_twice", params=dict(cin=cin, spilling=sp), weight=5))
     from harness import c10
 
+    from harness import c08
+
+    for inst in c08.instances(tier, seed):
+        if inst["fn"] == "encode":
+            out.append(dict(key="wbuf_sizes/" + inst["key"], fn="wbuf_sizes", params=inst["params"], weight=inst.get("weight", 1)))
     for inst in c10.instances(tier, seed):
         if inst["fn"] == "cascade":
             out.append(dict(key="rolling/" + inst["key"], fn="rolling", params=inst["params"], weight=inst.get("weight", 1)))
